@@ -801,7 +801,10 @@ Proof.
       apply Z.eqb_neq in Hn1. unfold for_service. rewrite Hl, Hn1. cbn [andb orb].
       cbn [srv_obs]. destruct (sock_index socks (h_dst_raw (rx_hdr q)) port 0); [|reflexivity].
       cbn [forallb so_rx]. rewrite andb_true_r.
-      change (rx_ok (deliver (forward_tx q oob) nok)) with true. cbn [andb].
+      change (rx_ok (deliver (forward_tx q oob) nok)) with true.
+      change (h_tc (rx_hdr (deliver (forward_tx q oob) nok))) with (h_tc (rx_hdr q)).
+      change (h_flow (rx_hdr (deliver (forward_tx q oob) nok))) with (h_flow (rx_hdr q)).
+      rewrite !Z.eqb_refl. cbn [andb].
       unfold deliver, forward_tx. cbn [rx_opts tx_e2e].
       destruct (h_next (rx_hdr q) =? E2E_CLASS) eqn:He.
       * rewrite orb_true_r. change (E2E_CLASS =? E2E_CLASS) with true. cbv beta iota.
